@@ -1415,6 +1415,11 @@ class Interp:
                 return ('tuple', (I(r), FALSE)) if checked else I(r)
             if base == 'Add' and isinstance(x, int):
                 x, y = y, x
+            if base == 'Add' and not isinstance(x, int) and not isinstance(y, int):
+                # the sum of two symbolic quantities (counts, hints): kept as an affine expression -- a
+                # difference-bound zone cannot relate a fresh term to a sum of two others
+                res = aff_norm(aff_add(to_aff(a), to_aff(b), 1))
+                return ('tuple', (res, ('boolu', ('ovf',)))) if checked else res
             t = fresh('r')
             z.touch(t)
             if checked:
